@@ -26,7 +26,9 @@ type Ctx struct {
 	Info   *types.Info
 	Types  *types.Package
 	Files  []*ast.File
-	Meta   *metaSchemas
+	// fieldBufBad caches fieldBufferBad (escape rule)
+	fieldBufBad map[*types.Var]string
+	Meta        *metaSchemas
 
 	decls    map[*types.Func]*ast.FuncDecl
 	obs      []*Obligation
